@@ -194,6 +194,17 @@ func (g *gen) classes() []zn.Stmt {
 			// DIFFERENT receiver of the same type)
 			{Name: "邻", Init: &zn.NullLit{}},
 		}}
+		if ci == 1 {
+			// defaults that are not literals: the result of a method declared above the type,
+			// and an object of the EARLIER type (built by that type's constructor if it has one)
+			c.Props = append(c.Props, zn.Prop{Name: "初", Init: &zn.Call{Name: "双", Args: []zn.Expr{num(3)}}})
+			var args []zn.Expr
+			if g.cls["甲类"] == "ctor" {
+				args = []zn.Expr{num(7), num(8)}
+			}
+			c.Props = append(c.Props, zn.Prop{Name: "件", Init: &zn.New{Class: "甲类", Args: args}})
+			g.labels["computed-default-properties"] = true
+		}
 		c.Methods = []zn.FuncDef{
 			{Name: "加", Params: []string{"D"}, Body: []zn.Stmt{show(name+"-加", this("数"), v("D")), set(this("数"), bin("+", this("数"), v("D"))), ret(v("此"))}},
 			{Name: "取", Body: []zn.Stmt{ret(this("数"))}},
@@ -232,6 +243,10 @@ func (g *gen) classes() []zn.Stmt {
 		}
 	}
 	return out
+}
+
+func (g *gen) showObj2(o string) zn.Stmt {
+	return show("obj2-"+o, &zn.Member{Root: v(o), Name: "初"}, &zn.Member{Root: &zn.Member{Root: v(o), Name: "件"}, Name: "数"}, &zn.Member{Root: &zn.Member{Root: v(o), Name: "件"}, Name: "表"})
 }
 
 func (g *gen) showObj(o string) zn.Stmt {
@@ -309,6 +324,9 @@ func (g *gen) mainOps() []zn.Stmt {
 				e = &zn.New{Class: cls}
 			}
 			out = append(out, &zn.Let{Names: []string{o}, E: e}, g.showObj(o))
+			if cls == "乙类" {
+				out = append(out, g.showObj2(o))
+			}
 			g.objs = append(g.objs, o)
 		case 2: // function call with tagged arguments
 			r := nm("R")
